@@ -266,7 +266,7 @@ struct rtosc_hack_decltype_t
 
 //Normal parameters
 #define rParam(name, ...) \
-  {STRINGIFY(name) "::c",  rProp(parameter) rDefaultProps rMap(min, 0) rMap(max, 127) DOC(__VA_ARGS__), NULL, rParamCb(name)}
+  {STRINGIFY(name) "::c",  rProp(parameter) rDefaultProps DOC(__VA_ARGS__) rMap(min, 0) rMap(max, 127), NULL, rParamCb(name)}
 #define rParamF(name, ...) \
   {STRINGIFY(name) "::f",  rProp(parameter) rDefaultProps DOC(__VA_ARGS__), NULL, rParamFCb(name)}
 #define rParamI(name, ...) \
